@@ -431,6 +431,9 @@ func (cfg *Manager) LoadJSON(bs []byte) error {
 	loadCompJSON := func(name string, component ComponentConfig, jsonSection jsonSection, t SectionType) error {
 		component.SetBaseDir(dir)
 		raw, ok := jsonSection[name]
+		if ok && raw == nil { // "name": null
+			return fmt.Errorf("%s component configuration is null", name)
+		}
 		if ok {
 			err := component.LoadJSON([]byte(*raw))
 			if err != nil {
